@@ -212,6 +212,9 @@ fn run_sound(seed: u64, dim: usize, metric: u8, heuristic: bool, repair: bool, m
         ef_search: 30,
         select_neighbors_strategy: if heuristic { SelectNeighborsStrategy::Heuristic } else { SelectNeighborsStrategy::Simple },
         reconnect_on_delete: repair,
+        // few layers and a wide level distribution: nodes reach the layer cap
+        max_layers: [2u8, 3, 5, 16][(simcore::rng::derive(seed, "max-layers") % 4) as usize],
+        scale_factor: [None, Some(1.0), Some(2.5)][(simcore::rng::derive(seed, "scale-factor") % 3) as usize],
         ..Default::default()
     };
     let mut idx = HnswIndex::try_new("v".to_string(), Some(cfg.clone())).map_err(|e| violation!("c12.setup", "config rejected: {e:?}"))?;
@@ -242,6 +245,83 @@ fn run_sound(seed: u64, dim: usize, metric: u8, heuristic: bool, repair: bool, m
                 if r != model.remove(id).is_some() {
                     return Err(violation!("c12.return", "op#{i} {op:?}: remove returned {r}"));
                 }
+            }
+            VOp::Flush if simcore::rng::derive(seed ^ (i as u64) << 24, "update-during-flush") % 3 == 0 && !model.is_empty() => {
+                // A document update (remove + insert of the same id with a new
+                // vector) lands while the flush is suspended in one of its node
+                // writes - the index is a concurrent structure and its flush
+                // snapshot is built for exactly that. Whatever this flush wrote,
+                // the NEXT flush must persist the new vector.
+                let target = *model.keys().nth((simcore::rng::derive(seed ^ i as u64, "target") % model.len() as u64) as usize).unwrap();
+                let at = simcore::rng::derive(seed ^ i as u64, "write-index") % 4;
+                let newv = vec_from(simcore::rng::derive(seed ^ i as u64, "new-vector") | 3, dim, 2.0);
+                let counter = Arc::new(Mutex::new(0u64));
+                let done = Arc::new(Mutex::new(false));
+                let mut disk2 = disk.clone();
+                for round in 0..2 {
+                    let writes: Arc<Mutex<Vec<(String, Vec<u8>)>>> = Arc::new(Mutex::new(Vec::new()));
+                    let (w1, w2, w3) = (writes.clone(), writes.clone(), writes.clone());
+                    let done_outer = done.clone();
+                    let (idxr, counter, done, newv2) = (&idx, counter.clone(), done.clone(), newv.clone());
+                    let saved = block(idx.flush_with(
+                        100 + 2 * i as u64 + round,
+                        move |id, data| {
+                            let w = w1.clone();
+                            let mut c = counter.lock().unwrap();
+                            let mut d = done.lock().unwrap();
+                            if round == 0 && !*d && *c == at {
+                                // the other task runs here
+                                idxr.remove(target, 100 + 2 * i as u64);
+                                let _ = idxr.insert_f32(target, newv2.clone(), 100 + 2 * i as u64);
+                                *d = true;
+                            }
+                            *c += 1;
+                            async move {
+                                w.lock().unwrap().push((format!("n_{id}"), data));
+                                Ok(true)
+                            }
+                        },
+                        move |data| async move {
+                            w2.lock().unwrap().push(("ids".into(), data));
+                            Ok(())
+                        },
+                        move |data| async move {
+                            w3.lock().unwrap().push(("meta".into(), data));
+                            Ok(())
+                        },
+                    ))
+                    .map_err(|e| violation!("c12.flush-error", "{ctx}: flush failed: {e:?}"))?;
+                    if round == 0 && !*done_outer.lock().unwrap() {
+                        // the flush had fewer node writes than the chosen index: do the update between the two flushes
+                        idx.remove(target, 100 + 2 * i as u64);
+                        let _ = idx.insert_f32(target, newv.clone(), 100 + 2 * i as u64);
+                        *done_outer.lock().unwrap() = true;
+                    } else if round == 0 {
+                        rep.probe("update_landed_inside_a_flush", 1);
+                    }
+                    if saved {
+                        let removed = idx.removed_node_ids();
+                        for (p, b) in writes.lock().unwrap().clone() {
+                            disk2.insert(p, b);
+                        }
+                        block(idx.purge_removed_nodes(async |id| {
+                            let _ = id;
+                            Ok(true)
+                        }))
+                        .map_err(|e| violation!("c12.flush-error", "{ctx}: purge_removed_nodes failed: {e:?}"))?;
+                        for id in removed {
+                            disk2.remove(&format!("n_{id}"));
+                        }
+                    }
+                }
+                model.insert(target, newv.clone());
+                disk = disk2;
+                committed = model.clone();
+                let loaded = load_from(&disk).map_err(|e| violation!("c12.load-error", "{ctx}: load after an update during a flush and one more flush failed: {e}"))?;
+                let Some(loaded) = loaded else {
+                    return Err(violation!("c12.load-error", "{ctx}: nothing loadable after two flushes"));
+                };
+                check_all(&loaded, metric, dim, &model, &live_of(&model), &mut qrng, &format!("{ctx}: id {target} was updated while the flush was writing; after the NEXT flush and a reload"), rep, true)?;
             }
             VOp::Flush => {
                 // capture the write sequence: nodes (overwritten in place), ids, metadata
@@ -374,7 +454,16 @@ fn run_persist(seed: u64, dim: usize, metric: u8, ops: &[VOp], rep: &mut RunRepo
     let store = SimStore::new(sim.clone(), InMemory::new());
     let storage = storage_for(&store).map_err(|e| violation!("c12.setup", "storage connect failed: {e}"))?;
     let fe = Fe::new("v".to_string(), Ft::Vector).map_err(|e| violation!("c12.setup", "field entry: {e:?}"))?;
-    let wcfg = WHnswConfig { dimension: dim, distance_metric: metric_e, ef_construction: 40, ef_search: 30, ..Default::default() };
+    let wcfg = WHnswConfig {
+        dimension: dim,
+        distance_metric: metric_e,
+        ef_construction: 40,
+        ef_search: 30,
+        max_layers: [2u8, 3, 5, 16][(simcore::rng::derive(seed, "max-layers") % 4) as usize],
+        max_connections: [2u8, 4, 32][(simcore::rng::derive(seed, "max-connections") % 3) as usize],
+        scale_factor: [None, Some(1.0), Some(2.5)][(simcore::rng::derive(seed, "scale-factor") % 3) as usize],
+        ..Default::default()
+    };
     store.set_record_forks(true);
     store.set_marker(0);
     let mut h = block(Hnsw::new(&fe, wcfg, storage.clone(), 1)).map_err(|e| violation!("c12.setup", "Hnsw::new failed: {e:?}"))?;
